@@ -117,6 +117,18 @@ fn main() {
         tried += 1;
         if let Some(w) = check_text(t) { println!("{{\"found\":true,\"tried\":{},\"text_hex\":\"{}\",\"what\":{:?}}}", tried, to_hex(t), w); return; }
     }
+    // long trivia runs (counter widths: more than 2^16 trivia tokens flushed in one batch)
+    let stress: Vec<String> = vec![
+        format!("{}fn f() {{}}", "\n".repeat(70000)),
+        format!("fn f() {{}}{}fn g() {{}}", "\n".repeat(70000)),
+        format!("fn f() {{}}\n{}", "  // c\n".repeat(25000)),
+        format!("fn f() {{ {} }}", "/* c */ ".repeat(40000)),
+        format!("fn f() {{}}{}", "\r\n".repeat(66000)),
+    ];
+    for t in &stress {
+        tried += 1;
+        if let Some(w) = check_text(t) { println!("{{\"found\":true,\"tried\":{},\"text_hex\":\"{}\",\"what\":{:?}}}", tried, to_hex(t), w); return; }
+    }
     let mut rng = Rng(seed.wrapping_mul(0x9E3779B97F4A7C15) | 1);
     // corpus: the repository's own sources given on the command line
     for path in args.iter().skip(4) {
